@@ -391,7 +391,8 @@ def rule_handover(repo, rule='C06.R8'):
     }
     for coder in ('Decoder', 'Encoder'):
         fi = repo.own_method(coder, 'process_template_data')
-        for tname, members in sorted(templates.items()):
+        for tname, members, given_vals in [(t, m, None) for t, m in sorted(templates.items())] + [
+                ('plain elements, the second subset repeating the first value for value', templates['plain elements'], [[7, 1.5, 'A'], [7, 1.5, 'A'], [9, 1.5, None]])]:
             class TD(Interp):
                 MAX_DEPTH = 30
 
@@ -411,6 +412,8 @@ def rule_handover(repo, rule='C06.R8'):
                     if q.split('.')[-1] in ('process_template', 'process_compiled_template') or text == 'template_processing_func':
                         st = self.state
                         k = st.fields.get('idx_subset')
+                        if given_vals and isinstance(k, int):
+                            k = given_vals.index(given_vals[k])      # what a walk produces is a function of the subset's values
                         dd = st.fields.get('decoded_descriptors')
                         if isinstance(dd, list):
                             dd.append(Sym('D%s' % k))
@@ -433,7 +436,7 @@ def rule_handover(repo, rule='C06.R8'):
                 bm = Obj('BufrMessage', {'is_compressed': Obj('SectionParameter', {'value': False}), 'n_subsets': Obj('SectionParameter', {'value': 3})})
                 loc = {'self': Obj(coder, {'compiled_template_manager': None, 'tables_root_dir': Sym('ROOT')}), 'bufr_message': bm}
                 for p in fi.params[2:]:
-                    loc[p] = Sym('BITIO') if p.startswith('bit_') else Obj('SectionParameter', {'value': [[Sym('IN0')], [Sym('IN1')], [Sym('IN2')]]})
+                    loc[p] = Sym('BITIO') if p.startswith('bit_') else Obj('SectionParameter', {'value': [list(x) for x in given_vals] if given_vals else [[Sym('IN0')], [Sym('IN1')], [Sym('IN2')]]})
                 return loc
             res = it.run_function(fi, mk, self_class=coder)
             rr.instance('%s.process_template_data, three uncompressed subsets, template with %s' % (coder, tname))
@@ -452,7 +455,8 @@ def rule_handover(repo, rule='C06.R8'):
                 given.update(kw)
                 for pname, tok in (('decoded_descriptors_all_subsets', 'D'), ('bitmap_links_all_subsets', 'L')) + ((('decoded_values_all_subsets', 'V'),) if coder == 'Decoder' else ()):
                     v = given.get(pname)
-                    want = [[Sym('%s%d' % (tok, k))] for k in range(3)] if tok != 'L' else [{0: Sym('L%d' % k)} for k in range(3)]
+                    ks = [given_vals.index(x) for x in given_vals] if given_vals else [0, 1, 2]
+                    want = [[Sym('%s%d' % (tok, k))] for k in ks] if tok != 'L' else [{0: Sym('L%d' % k)} for k in ks]
                     ok = isinstance(v, list) and len(v) == 3 and all(v[i] is not v[j] for i in range(3) for j in range(i)) and \
                         [repr(x) for x in v] == [repr(x) for x in want]
                     if not ok:
